@@ -275,7 +275,7 @@ Plan generate(uint64_t seed, const std::string& focus) {
         case SK::Receive: s.a = (int)r.pick<int>({1, 1, 2, 5}); s.c = r.chance(0.2); break;
         case SK::CancelOp: s.a = (int)r.below(1000); s.b = (int)r.pick<int>({0, 1, 2, 2, 2}); break;
         case SK::Disconnect: {
-            s.a = (int)r.pick<int>({0x00, 0x00, 0x04, 0x80, 0x81, 0x93, 0x98});
+            s.a = (int)r.pick<int>({0x00, 0x00, 0x04});
             if (r.chance(0.4)) { if (r.chance(0.5)) s.props.push_back(PS(P_REASON_STRING, "bye" + filler(r, biased_len(r) % 300))); if (r.chance(0.3)) s.props.push_back(P(P_SESSION_EXPIRY, (uint32_t)r.below(100))); for (auto& u : gen_user_props(r, 2)) s.props.push_back(u); }
             s.c = r.chance(0.2);
             run_pending = true;
